@@ -420,10 +420,10 @@ MANIFEST_TEXT = {
             "level": "Every mutation history up to the depth bound over 3 ids and 10 key vectors (two indexes, nil and empty keys), including two mutations inside one write transaction, with and without store prefix; 16 basic queries after every history and the full 1344-query set on every distinct content of depth<=2, compared with the reference scan; plus an interleaving exploration of mutations racing with Flush and Query.",
             "note": "taskqueue is a scheduler object; BadgerDB runs uninstrumented."},
     "C14": {"engine": "seq", "technique": "same enumeration as C13 with a callback oracle: OnQueryChange count per mutation, query results inside the callback, Events() against before/after reference results",
-            "level": "For every mutation of every enumerated history: query-change callbacks fire exactly once iff an index key changed and after the index reflects it (queries issued inside the callback equal the post-state reference), Events reports affected whenever the reference result differs and unaffected when neither key matches; the QueryHandler path is run on a real Service for ordinary and query resources.",
+            "level": "For every mutation of every enumerated history: query-change callbacks fire exactly once iff an index key changed and after the index reflects it (queries issued inside the callback equal the post-state reference), Events reports affected whenever the reference result differs and unaffected when neither key matches; the QueryHandler path is run on a real Service for ordinary and query resources, with and without path parameters and AffectedResources callbacks (including an affected resource whose events cannot be generated, and resources sharing one normalised query).",
             "note": "Five probe queries per mutation (both indexes, prefixes, filter, window)."},
     "C20": {"engine": "seq", "technique": "bounded-exhaustive event sequences through both legacy BadgerDB middleware packages on a real BadgerDB, compared with a reference fold after every event and after reopening the database; plus a preemption-bounded interleaving exploration of two concurrent change events (scheduling point between transaction closure and commit)",
-            "level": "Every sequence of <=4 (5 thorough) events over the model / collection event alphabets for 16 configurations (package x type x typed x default x index set): after each event the get response, Value(), the published event and the listener's old values / deleted data are compared with a reference fold; inapplicable events must publish nothing and leave storage unchanged; the database is closed and reopened and compared with the fold.",
+            "level": "Every sequence of <=4 (5 thorough) events over the model / collection event alphabets for 16 configurations (package x type x typed x default x index set): after each event the get response, Value(), the published event and the listener's old values / deleted data are compared with a reference fold; inapplicable events must publish nothing and leave storage unchanged; the database is closed and reopened and compared with the fold. Plus every interleaving up to the preemption bound of two change events applied concurrently to two resources (two workers), with a scheduling point between each transaction closure and its commit: stored JSON and get responses equal the fold.",
             "note": "Events are emitted from With callbacks of a real Service under the scheduler; the database is reopened after every 25th sequence."},
     "C15": {"engine": E1, "technique": "stateless model checking of the implementation with a virtual clock: preemption-bounded DFS over interleavings of query requests, expiry and callbacks",
             "level": "Every interleaving (up to the bound) of a query event with 0-2 requesters (valid, empty, missing and malformed queries), every callback behaviour, subscription failure, a concurrent callback of the same group, a chain of three events, Shutdown while the event is active (with the group idle or busy) and an event that outlives a Shutdown / Serve cycle; the timer fires at any point; responses, nil-call count/order, group serialisation and released resources are checked on every execution.",
